@@ -237,7 +237,7 @@ class FilterResult:
 
 
 def ekf(*, field, q, grid, mean0, std0, base_scale, lin="ts0", structure="dense", damp=0.0,
-        calib="none", correction=True, constraint_init=False, relin=False):
+        calib="none", correction=True, constraint_init=False, relin=False, observe=None):
     """Textbook extended Kalman filter on a grid. All inputs floats (converted exactly).
 
     Returns a FilterResult with per-time means/covs (calibrated as the library documents),
@@ -274,38 +274,59 @@ def ekf(*, field, q, grid, mean0, std0, base_scale, lin="ts0", structure="dense"
     filt = [(mean.copy(), P.copy())]
     preds, trans, scales_dyn = [], [], [_ones_scale(d, structure)]
     floors_dyn = [_zero_term(d, structure)]
-    for k in range(1, len(ts)):
-        h = ts[k] - ts[k - 1]
-        A, Q = iwp(q, d, h, base_scale)
-        mp_ = A @ mean
-        H, b = linearize_ode(field, mp_, ts[k], q, lin, structure)
+    if observe is None:
+        observe = [True] * len(ts)
+    if not observe[-1]:
+        raise ValueError("the last grid point must be a step end")
+    j = 0  # index of the last step end (observed point)
+    n_obs = 0
+    while j < len(ts) - 1:
+        kk = next(i for i in range(j + 1, len(ts)) if observe[i])
+        # one solver step from ts[j] to ts[kk]; points in between are interpolation targets (no data there)
+        A_full, Q_full = iwp(q, d, ts[kk] - ts[j], base_scale)
+        mp_ = A_full @ mean
+        H, b = linearize_ode(field, mp_, ts[kk], q, lin, structure)
         z = H @ mp_ + b
         if calib == "dynamic":
-            S0 = H @ Q @ H.T + R
+            S0 = H @ Q_full @ H.T + R
             e = _energy(z, S0, d, structure)
-            Qs = _scale_cov(Q, e, q, d, structure)
-            scales_dyn.append(_sqrt_scale(e, structure))
-            floors_dyn.append(_sqrt_scale(_energy(_mag(H, mp_, b), S0, d, structure), structure))
+            sc = _sqrt_scale(e, structure)
+            fl = _sqrt_scale(_energy(_mag(H, mp_, b), S0, d, structure), structure)
         else:
-            Qs = Q
-        Pp = A @ P @ A.T + Qs
+            e = None
+        m_run, P_run = mean, P
+        for i in range(j + 1, kk + 1):
+            A, Q = iwp(q, d, ts[i] - ts[i - 1], base_scale)
+            Qs = _scale_cov(Q, e, q, d, structure) if calib == "dynamic" else Q
+            m_run = A @ m_run
+            P_run = A @ P_run @ A.T + Qs
+            preds.append((m_run.copy(), P_run.copy()))
+            trans.append((A, Qs))
+            if calib == "dynamic":
+                scales_dyn.append(sc)
+                floors_dyn.append(fl)
+            if i < kk:
+                filt.append((m_run.copy(), P_run.copy()))
+        Pp = P_run
         S = H @ Pp @ H.T + R
         try:
             K = solve(S, H @ Pp).T
         except ZeroDivisionError:
-            raise Degenerate(f"singular innovation covariance at step {k} (exact arithmetic)") from None
+            raise Degenerate(f"singular innovation covariance at grid point {kk} (exact arithmetic)") from None
         if calib != "dynamic":
             sq_terms.append(_energy(z, S, d, structure))
             floor_terms.append(_energy(_mag(H, mp_, b), S, d, structure))
-        preds.append((mp_.copy(), Pp.copy()))
-        trans.append((A, Qs))
         mean = mp_ - K @ z
         P = Pp - K @ S @ K.T
         P = (P + P.T) / 2
         filt.append((mean.copy(), P.copy()))
+        n_obs += 1
+        j = kk
+    res.observe = list(observe)
     res.ts, res.filt, res.preds, res.trans = ts, filt, preds, trans
     res.q, res.d = q, d
-    N = len(ts) - 1
+    N = n_obs
+    res.num_steps = n_obs
     if calib == "mle":
         acc = sum(sq_terms[1:], sq_terms[0]) / len(sq_terms)
         if correction:
